@@ -88,6 +88,13 @@ PartialProgs == {NBlock(<<NAssign("f", F3), NAssign("g", NPartial(V("f"), sl)), 
                 \cup {NBlock(<<NAssign("g", NPartial(V(fn), <<NPlace, x>>)), NCall(V("g"), <<y>>)>>) :
                          fn \in {"append", "power", "substring"}, x \in {PA(<<NName(ka)>>), NPred(PA(<<NName(ka)>>), <<NNum(IntV(0))>>), PA(<<NName(ka), NPred(NVar(""), <<NNum(IntV(1))>>)>>), NCall(V("count"), <<PA(<<NName(ka)>>)>>)},
                          y \in {NNum(IntV(2)), NStr(<<104, 101, 108, 108, 111, 32, 119, 111, 114, 108, 100>>)}}
+                \* fewer slots than the function has parameters: the result is a function of its placeholders only
+                \cup {NBlock(<<NAssign("f", F3), NAssign("g", NPartial(V("f"), sl)), NCall(V("g"), args)>>) :
+                         sl \in {<<NPlace>>, <<NPlace, NNum(IntV(7))>>, <<NNum(IntV(7)), NPlace>>, <<NPlace, NPlace>>},
+                         args \in {<<>>, <<NNum(IntV(1))>>, <<NNum(IntV(1)), NNum(IntV(2))>>, <<NNum(IntV(1)), NNum(IntV(2)), NNum(IntV(3))>>}}
+                \cup {NApply(NNum(IntV(1)), NCall(NPartial(F3, <<NPlace, NNum(IntV(7))>>), <<NNum(IntV(3))>>)),
+                      NCall(V("map"), <<NArray(<<NNum(IntV(1)), NNum(IntV(2))>>), NPartial(F3, <<NPlace, NNum(IntV(7))>>)>>),
+                      NCall(NPartial(NPartial(F3, <<NPlace, NPlace>>), <<NNum(IntV(8)), NPlace>>), <<NNum(IntV(5)), NNum(IntV(6))>>)}
                 \cup {NPartial(NNum(IntV(1)), <<NPlace>>), NCall(NPartial(V("substring"), <<NPlace, NNum(IntV(1))>>), <<NStr(<<97, 98, 99>>)>>),
                       NCall(NPartial(NPartial(F3, <<NPlace, NPlace, NNum(IntV(9))>>), <<NNum(IntV(8)), NPlace>>), <<NNum(IntV(5))>>)}
 
@@ -126,6 +133,12 @@ CtxProgs == { PA(<<NName(ka), SB(NStr(<<122>>))>>),
               PA(<<NName(ka), NCall(V("pad"), <<NCall(V("length"), <<>>)>>)>>),
               PA(<<NName(kc), NCall(V("contains"), <<PA(<<V("$"), NName(kb), NName(kc), NCall(V("substring"), <<NNum(IntV(0)), NNum(IntV(1))>>)>>)>>)>>),
               PA(<<NName(kb), NName(kc), NCall(V("substringAfter"), <<PA(<<V("$"), NName(ka), NCall(V("substring"), <<NNum(IntV(1)), NNum(IntV(1))>>)>>)>>)>>),
+              \* the callee is not a plain variable: a block, a conditional, a call that returns the built-in
+              PA(<<NName(ka), NCall(NBlock(<<V("uppercase")>>), <<>>)>>), PA(<<NName(ka), NCall(NBlock(<<V("substringBefore")>>), <<NStr(<<122>>)>>)>>),
+              PA(<<NName(ka), NCall(NCond(NBool(TRUE), V("uppercase"), V("lowercase")), <<>>)>>), PA(<<NName(ka), NCall(NCond(NBool(FALSE), V("uppercase"), V("length")), <<>>)>>),
+              PA(<<NName(ka), NCall(NCall(NLambda(<<>>, V("uppercase")), <<>>), <<>>)>>),
+              PA(<<NName(kc), NCall(NBlock(<<V("length")>>), <<>>)>>),
+              NBlock(<<NAssign("pick", NLambda(<<"u">>, NCond(V("u"), V("uppercase"), V("lowercase")))), PA(<<NName(ka), NCall(NCall(V("pick"), <<NBool(TRUE)>>), <<>>)>>)>>),
               NCall(V("nosuch"), <<>>), NCall(NNum(IntV(1)), <<>>), NCall(PA(<<NName(ka)>>), <<>>) }
 
 Init == /\ \/ \E sg \in Sigs, al \in ArgLists : WellFormedSig(sg) /\ case = SigCase(sg, al)
